@@ -56,6 +56,19 @@ class ActionContext(abc.ABC):
         self.trigger_context: 'TriggerContext' = parent
         self.location_action: 'LocationAction' = action
         self._triggered = False
+        self._var_cache = None
+
+    @property
+    def var_cache(self):
+        """The identity cache for the variables this action collects (the trigger's, unless the action owns one)."""
+        if self._var_cache is None:
+            return self.trigger_context.var_cache
+        return self._var_cache
+
+    @var_cache.setter
+    def var_cache(self, var_cache):
+        """Give this action its own identity cache."""
+        self._var_cache = var_cache
 
     def __enter__(self):
         """Enter and open the context."""
@@ -74,7 +87,7 @@ class ActionContext(abc.ABC):
         :param watch: The watch expression to evaluate.
         :return: Tuple with WatchResult, collected variables, and the log string for the expression
         """
-        var_processor = VariableSetProcessor({}, self.trigger_context.var_cache)
+        var_processor = VariableSetProcessor({}, self.var_cache)
 
         try:
             result = self.trigger_context.evaluate_expression(watch)
@@ -93,7 +106,7 @@ class ActionContext(abc.ABC):
         :param variable: the value to process
         :return: Tuple with WatchResult, collected variables, and the log string for the expression
         """
-        var_processor = VariableSetProcessor({}, self.trigger_context.var_cache)
+        var_processor = VariableSetProcessor({}, self.var_cache)
         variable_id, log_str = var_processor.process_variable(name, variable)
 
         return WatchResult(WATCH_SOURCE_CAPTURE, name, variable_id), var_processor.var_lookup, log_str
